@@ -224,7 +224,7 @@ func cmdRun(args []string) {
 			min.Violation = &v
 			path := ""
 			if *replayDir != "" {
-				path = filepath.Join(*replayDir, fmt.Sprintf("%s-seed%d-%s.json", *prop, sd, sanitize(v.Invariant)))
+				path = filepath.Join(*replayDir, fmt.Sprintf("%s-seed%d-%s-%04x.json", *prop, sd, sanitize(v.Invariant), hashString(v.key())&0xffff))
 				if err := min.save(path); err != nil {
 					fmt.Fprintf(os.Stderr, "HARNESS-TROUBLE: cannot write replay: %v\n", err)
 					os.Exit(2)
